@@ -11,13 +11,16 @@ EXPLANATION = ("Decides structural necessary conditions of subtree composition, 
                "OutputReader::new; mode table pairing of Mode::key_words with Mode::flags_byte per variant; S5 the "
                "input offset is written only by set_input_offset (and reset), to both counters, under both asserts, "
                "root finalizers refuse a non-zero offset, and count()/merge_cv_stack subtract it consistently. "
+               "Subtree hashing runs through the same Hasher, so also: S1 reset restores every field a gate can write (the hazmat "
+               "offset included), MO merge order, the flag/counter discipline at every compression site (Fs, Fh, Fl, F5, F6), K3M1 "
+               "scratch sizes, W1/G3 the wide-subtree split, LZ lazy merging, ZP zero padding of the block buffer. "
                "That left_subtree_len returns the *largest* power of two, and equality of composed and one-shot "
                "hashes, are value-level and not decided.")
 TRUSTED = ["rustc nightly MIR (-Zmir-opt-level=0)", "mirfacts serialisation", "engines/rules/absint.py transfer "
            "functions for core integer methods (next_power_of_two, trailing_zeros, div_ceil, min/max)",
            "engines/rules/mirlib.py dominance and value-flow"]
 ASSUMPTIONS = ["usize is 64-bit for the declared domains (x86_64 and riscv64 configurations analysed)"]
-TECHNIQUE = "abstract interpretation (interval x congruence) of MIR + dominance/value-flow pattern rules"
+TECHNIQUE = "abstract interpretation (interval x congruence) of MIR + dominance/value-flow pattern rules + reset write-set fixpoint + known-bits flag dataflow"
 DESIGN_REF = "DESIGN.md section 2 (H1, H2, S5, F6) and section 4 (C09)"
 
 
@@ -29,3 +32,14 @@ def run(ctx):
     ctx.run_rule("F6m", r_hazmat.rule_mode_pairing, cfgs)
     ctx.run_rule("S5", r_hazmat.rule_S5, cfgs)
     ctx.run_rule("H4", r_hazmat.rule_H4, cfgs)
+    # subtree hashing goes through the same Hasher: reset must clear the hazmat offset, merges keep their order, the
+    # compression sites keep their flag/counter discipline, wide subtrees split as W1 says, buffers are zero padded
+    import r_state
+    import r_flags
+    import r_consts
+    import r_globals
+    for nm, fn in (("S1", r_state.rule_S1), ("MO", r_state.rule_merge_order), ("Fs", r_flags.rule_F_sinks), ("Fh", r_flags.rule_F_hash_many),
+                   ("Fl", r_flags.rule_F_literals), ("F5", r_flags.rule_F5), ("F6", r_flags.rule_F6), ("K3M1", r_consts.rule_K3_M1),
+                   ("W1", r_globals.rule_W1), ("G3", r_globals.rule_G3), ("ZP", r_state.rule_ZP)):
+        ctx.run_rule(nm, fn, cfgs)
+    ctx.run_rule("LZ", r_state.rule_LZ, [c for c in cfgs if c not in ("portable1", "asm-nostd", "neon1")])
